@@ -171,6 +171,7 @@ type TFact struct {
 }
 
 type absint struct {
+	diffBusy bool
 	w          *World
 	memo       map[ssa.Value]ival
 	assume     map[ssa.Value]ival
@@ -634,6 +635,54 @@ func (a *absint) tfactsAt(at ssa.Instruction) []TFact {
 	for _, f := range a.w.factsAt(at) {
 		out = append(out, a.lift(f, 3)...)
 	}
+	out = a.diffFacts(out, at)
+	return out
+}
+
+// diffFacts adds, for every fact comparing a difference with zero, the comparison of the
+// operands (when neither operand can be large enough for the subtraction to wrap).
+func (a *absint) diffFacts(out []TFact, at ssa.Instruction) []TFact {
+	// a comparison of a difference with zero is a comparison of its operands (when neither
+	// operand can be large enough for the subtraction to wrap)
+	small := func(t Term) bool {
+		if t.Len || t.Cap {
+			return true
+		}
+		if a.diffBusy {
+			return false
+		}
+		a.diffBusy = true
+		r := a.rangeOfTerm(t, at, 2)
+		a.diffBusy = false
+		return r.lo >= -(1<<30) && r.hi <= 1<<30
+	}
+	n := len(out)
+	for i := 0; i < n; i++ {
+		f := out[i]
+		if f.Op != "<" {
+			continue
+		}
+		var sub *ssa.BinOp
+		subLeft := false
+		if k, ok := constInt(f.Y.V); ok && k == 0 && !f.Y.Len && !f.Y.Cap && !f.X.Len && !f.X.Cap {
+			sub, _ = f.X.V.(*ssa.BinOp)
+			subLeft = true
+		} else if k, ok := constInt(f.X.V); ok && k == 0 && !f.X.Len && !f.X.Cap && !f.Y.Len && !f.Y.Cap {
+			sub, _ = f.Y.V.(*ssa.BinOp)
+		}
+		if sub == nil || sub.Op != token.SUB {
+			continue
+		}
+		x, y := termOf(sub.X), termOf(sub.Y)
+		if !small(x) || !small(y) {
+			continue
+		}
+		if subLeft {
+			out = append(out, TFact{"<", x, y, f.Truth}) // (x-y < 0) == (x < y)
+		} else {
+			out = append(out, TFact{"<", y, x, f.Truth}) // (0 < x-y) == (y < x)
+		}
+	}
 	return out
 }
 
@@ -747,10 +796,19 @@ func (a *absint) implied(call *ssa.Call, idx int, want string, depth int) []TFac
 			case a.definitelyNonNil(rv):
 				match = want == "nonnil"
 			default:
-				// may or may not be nil: this return may produce the outcome and nothing is
-				// known about it
-				match = true
-				unknown = true
+				// may or may not be nil — unless the branch leading here tested it
+				decided := false
+				for _, f := range a.w.factsAt(ret) {
+					if x, isNilF, ok := nilFact(f); ok && stripIface(a.w.resolveLoad(x)) == stripIface(rv) {
+						decided = true
+						match = isNilF == (want == "nil")
+					}
+				}
+				if !decided {
+					// this return may produce the outcome and nothing is known about it
+					match = true
+					unknown = true
+				}
 			}
 		case "true", "false":
 			if cst, ok := rv.(*ssa.Const); ok && cst.Value != nil && cst.Value.Kind() == constant.Bool {
@@ -937,7 +995,7 @@ func (a *absint) tfactsOnEdge(last ssa.Instruction, pred, succ *ssa.BasicBlock) 
 	for _, f := range edgeFacts(pred, succ) {
 		out = append(out, a.lift(f, 3)...)
 	}
-	return out
+	return a.diffFacts(out, last)
 }
 
 func (a *absint) refineWith(t Term, r ival, facts []TFact, at ssa.Instruction, depth int) ival {
